@@ -102,6 +102,10 @@ def run(ctx) -> None:
             rep.violate("C10.R2", D, D.node, f"the event's `{fld}` is never stamped")
             continue
         ok_pos = not heads or dcfg.dominates(n.id, heads[0].id)
+        if not ok_pos and not D.is_async and not any(a.node_checkpoints(D, dcfg, x) for x in dcfg.live_nodes()):
+            # dispatch is synchronous: no subscriber can look at the event before dispatch
+            # returns, so a stamp set on every path through dispatch is set "before delivery"
+            ok_pos = dcfg.all_paths_pass(dcfg.entry, [dcfg.exit], [n.id], edge_ok=lambda s_, d_, lab: lab not in ("e", "h"))
         v = n.ast.value
         if fld == "source":
             ok_val = isinstance(v, ast.Call) and self_attr(v.func) == sa.instance_attr
@@ -208,6 +212,12 @@ def run(ctx) -> None:
                 rep.note(f"C10.R4: the {what} stream is not entered on the exit stack (it is never closed there; not required by the statement)")
                 continue
             ok = secfg.dominates(rr[0][0].id, sn.id) and rr[0][0].id not in secfg.reach([sn.id], include_start=False)
+            if not ok and what == "receive":
+                # a closed RECEIVE end makes send_nowait raise BrokenResourceError, which dispatch
+                # swallows (C10.R1): closing it before the unsubscription is harmless then
+                dsp_ = sa.method("dispatch")
+                sends_ = [c for c, _ in a.func_calls(dsp_) if call_name(c) in ("send_nowait", "send")]
+                ok = bool(sends_) and all(any(a.handler_catches(h, "BrokenResourceError") for h in a.covering_handlers(dsp_, c)) for c in sends_)
             rep.check("C10.R4", ok, stream_events, rr[0][1], f"the {what} stream is entered before the subscriptions, so it is closed only after they were removed (no dispatch ever sees a closed stream)", f"the {what} stream is closed before the subscriptions are removed: a dispatch in between hits a closed stream")
         loops2 = enclosing_loops(stream_events, sc)
         sig_param = stream_events.params[0]
